@@ -37,4 +37,18 @@ PROPS = {
  "C11": mk("C11", ["C11_index_space_closed_form", "C11_mapping_position"],
            GEN + "at least one convert_local_fn_to_import, any order, interleaved with import additions",
            "Partial proof (shared theorems) + per-history evaluation: body removed, import present, every former use designates it; known class D02 (import order vs index order)."),
+ "C05": dict(
+    parts=[dict(engine="reindex", harness_prop="C05", check_targets=["Check/CheckReidx.vo"], per_shard=300, share=0.5),
+           dict(engine="lowering", harness_prop="C05low", check_targets=["Check/CheckLow.vo"], per_shard=400, share=0.5)],
+    check_targets=["Check/CheckReidx.vo", "Check/CheckLow.vo"], proof_targets=["Props/C05.vo"],
+    theorems=[("C05", "C05_second_resolution_is_identity"), ("C05", "C05_partial_identity_maps_leave_references")],
+    quick=dict(n=2400), thorough=dict(n=40000),
+    rule="edit histories of the re-indexing engine and instrumentation plans of the lowering engine (all modes, function entry/exit, all API paths), each followed by two consecutive encode() calls "
+         "whose bytes are compared; non-trivial = history or plan non-empty",
+    level_text="Partial proof: the second resolution pass is the identity on a resolved body (all bodies); identity id maps leave every reference unchanged. Whether the bytes of two consecutive encodings are equal "
+               "is observed on every sampled history / plan; known classes D01 (id maps re-applied to already rewritten references and start/init expressions) and D31 (special injections inside a region removed by "
+               "block-alt are left unresolved by the first encode).",
+    level_note=NOTE, trusted_base=TB,
+    technique="Coq lemmas (idempotence of the resolution pass, identity maps) + byte comparison of two real encodings + known-class triage in Coq",
+    design_ref="5/C05", modelled="resolve_special_instrumentation, id maps", assumptions=[]),
 }
